@@ -7,7 +7,9 @@ From Coq Require Import List Arith Bool.
 Import ListNotations.
 
 (* kind: 1 nil message, 2 event stream gone, 3 response mailbox subscribed, 4 event stream subscribed to itself, 5 a dead subscriber on an engine with a remote,
-   6 twelve rounds of k actors stopped at the same moment, then one message to each;
+   6 twelve rounds of k actors stopped at the same moment, then one message to each,
+   7 nil PIDs handed to Send, SendWithSender, SendLocal, Poison, Stop, Request,
+   8 k messages sent to an actor that is held inside its Stopped handler;
    outcome: 0 ok, 1 panic, 2 diverged (no rest / too many events), 3 the sender blocked, 4 an actor still registered after its stop context was done *)
 Record case := { c_kind : nat; c_k : nat; c_outcome : nat; c_dead : nat; c_events : nat }.
 
@@ -15,6 +17,10 @@ Definition oracle (c : case) : bool :=
   Nat.eqb (c_outcome c) 0 &&
   (* a nil message for an unregistered PID is one dead letter like any other *)
   (if Nat.eqb (c_kind c) 1 then Nat.eqb (c_dead c) 1 else true) &&
+  (* SendLocal(nil) and the pills of Poison(nil) / Stop(nil) are one dead letter each *)
+  (if Nat.eqb (c_kind c) 7 then Nat.eqb (c_dead c) 3 else true) &&
+  (* a message accepted while the actor handles Stopped is reported when it has stopped: none is lost *)
+  (if Nat.eqb (c_kind c) 8 then Nat.eqb (c_dead c) (c_k c) else true) &&
   (* every message sent to an actor whose stop context was done is one dead letter *)
   (if Nat.eqb (c_kind c) 6 then Nat.eqb (c_dead c) (12 * c_k c) else
   (* bounded: nowhere near the divergence guard of 20000 *)
